@@ -11,6 +11,17 @@ GOVC = os.path.dirname(HERE)
 MOD = 'github.com/nspcc-dev/neo-go'
 
 
+def normfn(name):
+    """generic instances are printed with byte or uint8 depending on alias tracking: normalise"""
+    if '[' not in name:
+        return name
+    import re
+    head, br, tail = name.partition('[')
+    tail = re.sub(r'\bbyte\b', 'uint8', tail)
+    tail = re.sub(r'\brune\b', 'int32', tail)
+    return head + br + tail
+
+
 class Program:
     def __init__(self):
         self.funcs = {}
@@ -21,8 +32,8 @@ class Program:
         self.aliases = {}
 
     def add_export(self, d):
-        self.funcs.update(d['funcs'])
-        self.sigs.update(d['sigs'])
+        self.funcs.update({normfn(k): v for k, v in d['funcs'].items()})
+        self.sigs.update({normfn(k): v for k, v in d['sigs'].items()})
         self.consts.update(d['consts'])
         self.types.add(d['types'])
 
@@ -38,6 +49,10 @@ class Program:
                 pkg = d['name'].rsplit('.', 1)[0]
                 a = pkg.rsplit('/', 1)[-1]
                 cnt.setdefault(a, set()).add(pkg)
+        for (pkg, name) in self.cs.specs:
+            cnt.setdefault(pkg.rsplit('/', 1)[-1], set()).add(pkg)
+        for k, c in self.cs.funcs.items():
+            cnt.setdefault(c.pkg.rsplit('/', 1)[-1], set()).add(c.pkg)
         self.aliases = {}
         for a, s in cnt.items():
             if len(s) == 1:
